@@ -114,6 +114,13 @@ VALUED = [
             CallFunctionResult::Err(v) => Some(v),
             _ => None,
         }'''),
+ ('connect2', 'Connect2', [], [], 'seq![Field::U32(m.major_version), Field::U32(m.minor_version)]', 'Some(m.value)'),
+ ('connect_reply2', 'ConnectReply2', [('enum', 'ConnectResult'), ('enum', 'ConnectReplyKind')], ['ConnectReplyKind'],
+  '''match m.result {
+            ConnectResult::Ok(v) => seq![Field::Disc(ConnectReplyKind::Ok.to_u8()), Field::U32(v)],
+            ConnectResult::Rejected => seq![Field::Disc(ConnectReplyKind::Rejected.to_u8())],
+            ConnectResult::IncompatibleVersion => seq![Field::Disc(ConnectReplyKind::IncompatibleVersion.to_u8())],
+        }''', 'Some(m.value)'),
  ('call_function2', 'CallFunction2', [], ['OptionKind'],
   '''match m.version {
             None => seq![Field::U32(m.serial), Field::Id(m.service_cookie.0), Field::U32(m.function), Field::Disc(OptionKind::None.to_u8())],
